@@ -45,6 +45,9 @@ pub enum DbKey {
 pub enum FaultMode {
     Persistent,
     FailOnce,
+    /// the database panics (payload `verif-db-panic:<key>`): C05 - the panic must reach the caller
+    /// and every thread must finish without a stall timer
+    Panic,
 }
 
 #[derive(Debug, Default)]
@@ -68,6 +71,10 @@ impl MemDb {
             Some(FaultMode::FailOnce) => {
                 f.remove(&key);
                 Err(DbErr(format!("{key:?}")))
+            }
+            Some(FaultMode::Panic) => {
+                drop(f); // do not poison the fault table
+                panic!("verif-db-panic:{key:?}")
             }
             None => Ok(()),
         }
@@ -750,6 +757,10 @@ pub fn pick_fault(rng: &mut Rng, world: &World, in_order_reads: &[DbKey]) -> (Db
 /// C04 verdict for one faulty run. `clean` = oracle without the fault, `faulty` = oracle with it.
 pub fn fault_verdict(db: &MemDb, b: &BlockSpec, mode: FaultMode, clean: &BlockResult, faulty: &BlockResult, g: &BlockResult) -> Vec<String> {
     match mode {
+        FaultMode::Panic => match &g.result {
+            Err((_, e)) if e.contains("verif-db-panic") => vec![],
+            r => vec![format!("the database panicked but the panic did not reach the caller: grevm returned {r:?}")],
+        },
         FaultMode::Persistent => compare(faulty, g),
         FaultMode::FailOnce => {
             if compare(clean, g).is_empty() {
